@@ -942,8 +942,21 @@ pub fn minimise(inp: &str, outp: &str) -> i32 {
 /// separate processes, once split over 1 worker and once over many, and the
 /// order-independent event-log hashes compared.
 pub fn selfcheck(n: u64) -> i32 {
-    let seed = seed();
-    println!("VERIF_SEED={} selfcheck n={}", seed, n);
+    let base = seed();
+    let nseeds: u64 = std::env::var("VERIF_SELFCHECK_SEEDS").ok().and_then(|s| s.parse().ok()).unwrap_or(4);
+    println!("VERIF_SEED={} selfcheck n={} seeds={}", base, n, nseeds);
+    let mut bad = 0;
+    for k in 0..nseeds {
+        bad += selfcheck_seed(base.wrapping_add(k.wrapping_mul(7919)), n);
+    }
+    if bad > 0 {
+        2
+    } else {
+        0
+    }
+}
+
+fn selfcheck_seed(seed: u64, n: u64) -> i32 {
     let mut bad = 0;
     for prop in ["C07", "C08", "C18", "C17"] {
         let engine = engine_of(prop);
@@ -979,15 +992,11 @@ pub fn selfcheck(n: u64) -> i32 {
         };
         let (a, b, c) = (sum(&one), sum(&many), sum(&many5));
         let ok = a.is_some() && a == b && b == c;
-        println!("selfcheck {} engine={} runs={} executions={:?} hash_1proc={:x?} hash_16proc={:x?} hash_5proc={:x?} {}",
-            prop, engine, n, a.map(|x| x.1), a.map(|x| x.0), b.map(|x| x.0), c.map(|x| x.0), if ok { "DETERMINISTIC" } else { "DIVERGED" });
+        println!("selfcheck seed={} {} engine={} runs={} executions={:?} hash_1proc={:x?} hash_16proc={:x?} hash_5proc={:x?} {}",
+            seed, prop, engine, n, a.map(|x| x.1), a.map(|x| x.0), b.map(|x| x.0), c.map(|x| x.0), if ok { "DETERMINISTIC" } else { "DIVERGED" });
         if !ok {
             bad += 1;
         }
     }
-    if bad > 0 {
-        2
-    } else {
-        0
-    }
+    bad
 }
